@@ -421,78 +421,176 @@ pub fn compensated_row(fam: u8, i: u8, j: u8, sel_val: F, xor: bool, r: &[F]) ->
             next = [r[5], r[6], r[7], four * a + q[3]];
         }
         3 => {
-            // digit d outside {-1,0,1}: r0 = d (d-1)(d+1); put -r0 on component j
-            let (i, j) = if i == 0 { (i, j) } else if j == 0 { (j, i) } else { return None };
-            let _ = i;
-            let dg = F::from(2u64) + F::from(r[8].to_bytes()[0] as u64 % 5);
-            let r0 = dg * (dg - one) * (dg + one);
             let (x_beta, y_beta, q_c) = (sel[spec::Q_L], sel[spec::Q_R], sel[spec::Q_C]);
             let (a, b, d) = (r[4], r[5], r[6]);
-            let mut c = dg * q_c; // xy_alpha
-            if j == 1 {
-                // bit*q_c - xy_alpha = -r0
-                c = dg * q_c + r0;
+            if i == 0 || j == 0 {
+                // digit d outside {-1,0,1}: r0 = d (d-1)(d+1); put -r0 on component j
+                let j = if i == 0 { j } else { i };
+                let dg = F::from(2u64) + F::from(r[8].to_bytes()[0] as u64 % 5);
+                let r0 = dg * (dg - one) * (dg + one);
+                let mut c = dg * q_c; // xy_alpha
+                if j == 1 {
+                    // bit*q_c - xy_alpha = -r0
+                    c = dg * q_c + r0;
+                }
+                let y_alpha = dg.square() * (y_beta - one) + one;
+                let x_alpha = dg * x_beta;
+                let t = c * a * b * dusk_jubjub::EDWARDS_D;
+                let mut a_n = (a * y_alpha + b * x_alpha) * (one + t).invert()?;
+                let mut b_n = (b * y_alpha + a * x_alpha) * (one - t).invert()?;
+                if j == 2 {
+                    // (a_n + a_n t) - rhs = -r0
+                    a_n = (a * y_alpha + b * x_alpha - r0) * (one + t).invert()?;
+                }
+                if j == 3 {
+                    b_n = (b * y_alpha + a * x_alpha - r0) * (one - t).invert()?;
+                }
+                vals = [a, b, c, d];
+                next = [a_n, b_n, r[7], d + d + dg];
+            } else {
+                // honest digit; two of {helper wire, x step, y step} off by (t, -t)
+                let dg = match r[8].to_bytes()[0] % 3 {
+                    0 => F::zero(),
+                    1 => one,
+                    _ => -one,
+                };
+                let t0 = r[9] + one;
+                let (lo, hi) = if i < j { (i, j) } else { (j, i) };
+                let mut c = dg * q_c;
+                if lo == 1 {
+                    // bit*q_c - xy_alpha = t0
+                    c = dg * q_c - t0;
+                }
+                let y_alpha = dg.square() * (y_beta - one) + one;
+                let x_alpha = dg * x_beta;
+                let t = c * a * b * dusk_jubjub::EDWARDS_D;
+                // residual of the x step: a_n (1 + t) - rhs_x ; y step: b_n (1 - t) - rhs_y
+                let (mut ex, mut ey) = (F::zero(), F::zero());
+                if lo == 1 {
+                    if hi == 2 { ex = -t0 } else { ey = -t0 }
+                } else {
+                    ex = t0;
+                    ey = -t0;
+                }
+                let a_n = (a * y_alpha + b * x_alpha + ex) * (one + t).invert()?;
+                let b_n = (b * y_alpha + a * x_alpha + ey) * (one - t).invert()?;
+                vals = [a, b, c, d];
+                next = [a_n, b_n, r[7], d + d + dg];
             }
-            let y_alpha = dg.square() * (y_beta - one) + one;
-            let x_alpha = dg * x_beta;
-            let t = c * a * b * dusk_jubjub::EDWARDS_D;
-            let mut a_n = (a * y_alpha + b * x_alpha) * (one + t).invert()?;
-            let mut b_n = (b * y_alpha + a * x_alpha) * (one - t).invert()?;
-            if j == 2 {
-                // (a_n + a_n t) - rhs = -r0
-                a_n = (a * y_alpha + b * x_alpha - r0) * (one + t).invert()?;
-            }
-            if j == 3 {
-                b_n = (b * y_alpha + a * x_alpha - r0) * (one - t).invert()?;
-            }
-            vals = [a, b, c, d];
-            next = [a_n, b_n, r[7], d + d + dg];
         }
         4 => {
-            // x1*y2 wire off by t (component 0 = -t), component j = +t
-            if !(i == 0 || j == 0) {
-                return None;
-            }
-            let j = if i == 0 { j } else { i };
             let (x1, y1, x2, y2) = (r[0], r[1], r[2], r[3]);
             let t = r[8] + one;
-            let h = x1 * y2 + t;
             let y1x2 = y1 * x2;
-            let dd = dusk_jubjub::EDWARDS_D * h * y1x2;
-            let mut x3 = (h + y1x2) * (one + dd).invert()?;
-            let mut y3 = (y1 * y2 + x1 * x2) * (one - dd).invert()?;
-            if j == 1 {
-                x3 = (h + y1x2 - t) * (one + dd).invert()?;
+            if i == 0 || j == 0 {
+                // x1*y2 wire off by t (component 0 = -t), component j = +t
+                let j = if i == 0 { j } else { i };
+                let h = x1 * y2 + t;
+                let dd = dusk_jubjub::EDWARDS_D * h * y1x2;
+                let mut x3 = (h + y1x2) * (one + dd).invert()?;
+                let mut y3 = (y1 * y2 + x1 * x2) * (one - dd).invert()?;
+                if j == 1 {
+                    x3 = (h + y1x2 - t) * (one + dd).invert()?;
+                } else {
+                    y3 = (y1 * y2 + x1 * x2 - t) * (one - dd).invert()?;
+                }
+                vals = [x1, y1, x2, y2];
+                next = [x3, y3, r[4], h];
             } else {
-                y3 = (y1 * y2 + x1 * x2 - t) * (one - dd).invert()?;
+                // honest helper wire; x3 and y3 residuals (t, -t)
+                let h = x1 * y2;
+                let dd = dusk_jubjub::EDWARDS_D * h * y1x2;
+                let x3 = (h + y1x2 + t) * (one + dd).invert()?;
+                let y3 = (y1 * y2 + x1 * x2 - t) * (one - dd).invert()?;
+                vals = [x1, y1, x2, y2];
+                next = [x3, y3, r[4], h];
             }
-            vals = [x1, y1, x2, y2];
-            next = [x3, y3, r[4], h];
         }
         2 => {
-            // two of the three quad-range components with cancelling deltas;
-            // the selector identity is re-solved through q_c
-            if i > 2 || j > 2 {
-                return None;
-            }
+            let (lo, hi) = if i < j { (i, j) } else { (j, i) };
             let mut qs = [F::from(1u64), F::from(2u64), F::from(3u64)]; // A, B, D
-            let mut qi = F::from(6u64) + F::from(r[8].to_bytes()[0] as u64);
-            let mut qj = None;
-            for _ in 0..40 {
-                if let Some(f) = delta_preimage(&-spec::delta(qi)) {
-                    qj = Some(f);
-                    break;
-                }
-                qi += one;
-            }
-            qs[i] = qi;
-            qs[j] = qj?;
-            let w = qs[0] * qs[1];
-            let e = spec::logic_select(&qs[0], &qs[1], &w, &qs[2], &F::zero());
-            let den = F::from(9u64) * qs[2] - F::from(3u64) * (qs[0] + qs[1]);
-            sel[spec::Q_C] = -e * den.invert()?;
+            let nine = F::from(9u64);
+            let three = F::from(3u64);
             let (a, b, d) = (r[2], r[3], r[4]);
-            vals = [a, b, w, d];
+            // the selector identity is affine in q_c: e(q_c = 0) + q_c * den
+            let solve_qc = |qs: &[F; 3], w: &F, target: F| -> Option<F> {
+                let e = spec::logic_select(&qs[0], &qs[1], w, &qs[2], &F::zero());
+                let den = nine * qs[2] - three * (qs[0] + qs[1]);
+                Some((target - e) * Option::<F>::from(den.invert())?)
+            };
+            if hi <= 2 {
+                // two of the three quad-range components with cancelling
+                // deltas; the selector identity is re-solved through q_c
+                let mut qi = F::from(6u64) + F::from(r[8].to_bytes()[0] as u64);
+                let mut qj = None;
+                for _ in 0..40 {
+                    if let Some(f) = delta_preimage(&-spec::delta(qi)) {
+                        qj = Some(f);
+                        break;
+                    }
+                    qi += one;
+                }
+                qs[i] = qi;
+                qs[j] = qj?;
+                let w = qs[0] * qs[1];
+                sel[spec::Q_C] = solve_qc(&qs, &w, F::zero())?;
+                vals = [a, b, w, d];
+            } else if lo <= 2 {
+                // one quad outside {0..3} (residual r0) against the product
+                // wire (hi = 3) or the selector identity (hi = 4)
+                qs[lo] = F::from(5u64) + F::from(r[8].to_bytes()[0] as u64 % 9);
+                let r0 = spec::delta(qs[lo]);
+                // probe the sign convention of the product-wire component
+                let probe = {
+                    let mut s2 = sel;
+                    s2[spec::Q_C] = one;
+                    let w1 = qs[0] * qs[1] + one;
+                    let v = rv(&[a, b, w1, d], &[four * a + qs[0], four * b + qs[1], r[5], four * d + qs[2]]);
+                    spec::logic_components(&s2, &v)[3]
+                };
+                let mut w = qs[0] * qs[1];
+                let mut target = F::zero();
+                if hi == 3 {
+                    // component 3 = probe * (w - AB) must equal -r0
+                    w -= r0 * Option::<F>::from(probe.invert())?;
+                } else {
+                    target = -r0;
+                }
+                sel[spec::Q_C] = solve_qc(&qs, &w, target)?;
+                // component 4 carries the selector value: undo its scaling by probing
+                let v = rv(&[a, b, w, d], &[four * a + qs[0], four * b + qs[1], r[5], four * d + qs[2]]);
+                let got = spec::logic_components(&sel, &v)[4];
+                if got != target {
+                    // the component is a multiple of the raw identity: rescale once
+                    let raw = spec::logic_select(&qs[0], &qs[1], &w, &qs[2], &sel[spec::Q_C]);
+                    if raw == F::zero() {
+                        return None;
+                    }
+                    let scale = got * Option::<F>::from(raw.invert())?;
+                    sel[spec::Q_C] = solve_qc(&qs, &w, target * Option::<F>::from(scale.invert())?)?;
+                }
+                vals = [a, b, w, d];
+            } else {
+                // product wire (3) against the selector identity (4)
+                let t0 = r[9] + one;
+                let w = qs[0] * qs[1] + t0;
+                let v0 = {
+                    let mut s2 = sel;
+                    s2[spec::Q_C] = F::zero();
+                    let v = rv(&[a, b, w, d], &[four * a + qs[0], four * b + qs[1], r[5], four * d + qs[2]]);
+                    (spec::logic_components(&s2, &v)[3], spec::logic_components(&s2, &v)[4])
+                };
+                let v1 = {
+                    let mut s2 = sel;
+                    s2[spec::Q_C] = one;
+                    let v = rv(&[a, b, w, d], &[four * a + qs[0], four * b + qs[1], r[5], four * d + qs[2]]);
+                    spec::logic_components(&s2, &v)[4]
+                };
+                // component 4 is affine in q_c: v0.1 + q_c (v1 - v0.1) = -component 3
+                let slope = v1 - v0.1;
+                sel[spec::Q_C] = (-v0.0 - v0.1) * Option::<F>::from(slope.invert())?;
+                vals = [a, b, w, d];
+            }
             next = [four * a + qs[0], four * b + qs[1], r[5], four * d + qs[2]];
         }
         _ => return None,
